@@ -362,6 +362,11 @@ class _AbstractBytes(KeyDataType):
             raise TypeError(
                 f"{self._length}-byte array expected, not {item!r}"
             )
+        if type(item) is not bytes:
+            # Store exact bytes, as the C implementation does (it copies
+            # the characters): an instance of a subclass would be pickled
+            # as such.
+            item = bytes(memoryview(item))
         return item
 
     def supports_value_union(self):
